@@ -450,6 +450,7 @@ package trie
 // hasher.hash: the dirty flag of a node is cleared only in commit mode (a database to write to was given), and only on the node whose hash
 // was just computed and cached in the same step.
 //@ func (*hasher).hash props C13
+//@ modifies all, c13Encoded, c13HashedOut
 //@ assert before store dirty#1: [dirty-cleared-only-by-commit] db != nil
 //@ assert before store dirty#2: [dirty-cleared-only-by-commit] db != nil
 //@ assert before store dirty#1: [clears-to-clean] value == false
@@ -632,3 +633,18 @@ package trie
 //@ ensures [root] c13Root(t.root)
 //@ ensures [members-kept] c13Kept(old(c13S), old(c13F), old(c13P))
 //@ ensures [error-keeps-root] result1 != nil ==> t.root == old(t.root)
+
+// The embedding threshold of the Merkle-Patricia encoding: a node is stored INSIDE its parent only if its RLP encoding is strictly
+// shorter than 32 bytes (and it is not the root: force); from 32 bytes on it is replaced by its hash. A 32-byte node embedded in
+// its parent gives a root no other implementation computes. Typestate over two ghost flags (asserts in a `nobody` contract are
+// verified on the body): between the encoding and a return without the hashing step, the encoding must be short and not forced.
+//@ ghost var c13Encoded: bool
+//@ ghost var c13HashedOut: bool
+//@ func (*hasher).store props C13
+//@ nobody
+//@ modifies all, c13Encoded, c13HashedOut
+//@ ghost at entry: c13Encoded := false
+//@ ghost at entry: c13HashedOut := false
+//@ ghost after call rlp.Encode: c13Encoded := true
+//@ ghost before call (node).cache: c13HashedOut := true
+//@ assert before return: [embedded-only-below-32-bytes] c13Encoded && !c13HashedOut ==> len(h.tmp) < 32 && !force
